@@ -53,12 +53,12 @@ func main() {
 			fmt.Fprintf(os.Stderr, "CHECK-ERROR %v\n", err)
 			os.Exit(2)
 		}
-		got := run.Probe(id, func(w *run.Worker) { c.replay(w, v) })
+		got := run.Probe(id, func(w *run.Worker) { run.ReplayWithHistory(c.replay, w, v) })
 		fmt.Printf("replay of %s (check=%s sig=%s)\nsource=%q\n", os.Args[3], v.Check, v.Sig, v.Source)
 		hit := false
 		for _, g := range got {
 			fmt.Printf("reported: sig=%s\n  %s\n", g.Sig, strings.ReplaceAll(g.Detail, "\n", "\n  "))
-			if g.Sig == v.Sig {
+			if g.Sig == v.Sig && (len(v.History) == 0 || g.Source == v.Source) {
 				hit = true
 			}
 		}
